@@ -1070,23 +1070,53 @@ def rule_r5(chk, prog):
     IN, _ = rcfg.guard_facts()
     wl = [l for l in walk_no_nested(r) if isinstance(l, ast.While)]
     chk.floor('C03.R5', 'fixed-point loops in ddmin.reduce', len(wl), 2)
+    # names that hold "number of expressions reduced" of one application
+    third = set()
+    for st in ast.walk(r):
+        if isinstance(st, ast.Assign) and isinstance(
+                st.value, ast.Call) and (call_name(st.value) or '').endswith(
+                    '_apply_mutator') and isinstance(
+                        st.targets[0], ast.Tuple) and len(
+                            st.targets[0].elts) == 3 and isinstance(
+                                st.targets[0].elts[2], ast.Name):
+            third.add(st.targets[0].elts[2].id)
     for l in wl:
         brks = [b for b in ast.walk(l) if isinstance(b, ast.Break)
                 and _innermost_loop(b) is l]
-        ok = bool(brks)
+        exits = []  # variables whose being zero ends the loop
+        ok = True
         for b in brks:
             n = rcfg.node_of[id(b)]
             facts = IN.get(n) or frozenset()
-            g = [t for (t, p) in facts if p and t.endswith(' == 0')]
+            g = [t for (t, p) in facts if p and t.endswith(' == 0')] + [
+                t.replace(' != 0', ' == 0') for (t, p) in facts
+                if not p and t.endswith(' != 0')]
             ok = ok and bool(g)
-            for t in g:
-                v = t.split(' ==')[0]
-                # v accumulates/receives only _apply_mutator's third result
-                for st in ast.walk(r):
-                    if isinstance(st, ast.AugAssign) and unparse(
-                            st.target) == v:
-                        ok = ok and isinstance(st.op, ast.Add) and unparse(
-                            st.value) in ('nreduced', )
+            exits += [t.split(' ==')[0] for t in g]
+        if not (isinstance(l.test, ast.Constant) and l.test.value is True):
+            # "while v != 0": left when v == 0
+            tt = unparse(l.test)
+            if tt.endswith(' != 0'):
+                exits.append(tt[:-len(' != 0')])
+            elif isinstance(l.test, ast.Name):
+                exits.append(l.test.id)
+            else:
+                ok = False
+        ok = ok and bool(exits)
+        for v in exits:
+            # v accumulates/receives only _apply_mutator's third result
+            for st in ast.walk(r):
+                if isinstance(st, ast.AugAssign) and unparse(
+                        st.target) == v:
+                    ok = ok and isinstance(st.op, ast.Add) and isinstance(
+                        st.value, ast.Name) and st.value.id in third
+                elif isinstance(st, ast.Assign) and any(
+                        isinstance(t_, ast.Name) and t_.id == v
+                        for t_ in st.targets):
+                    ok = ok and ((isinstance(st.value, ast.Constant)
+                                  and st.value.value in (0, None))
+                                 or (isinstance(st.value, ast.Name)
+                                     and st.value.id in third))
         chk.check('C03.R5', 'strategy_ddmin.reduce', f'exit of while '
                   f'{unparse(l.test)}', ok, 'the loop is not left exactly '
                   'when a round brought no reduction', loc=dm.loc(l),
